@@ -174,6 +174,10 @@ func genVal(t *rapid.T) gn.Val {
 	case 14:
 		return gn.Val{Kind: rapid.SampledFrom([]string{"jsonietf", "ascii"}).Draw(t, "textkind"), S: rapid.SampledFrom([]string{`{"a":1}`, `{"a": 1}`, "x"}).Draw(t, "text")}
 	case 15:
+		if rapid.Bool().Draw(t, "special-float") {
+			// NaN (equal to nothing, itself included), infinities, negative zero (equal to zero)
+			return gn.Val{Kind: rapid.SampledFrom([]string{"double", "float"}).Draw(t, "fkind"), S: rapid.SampledFrom([]string{"nan", "nan", "inf", "-inf", "-0"}).Draw(t, "special")}
+		}
 		return gn.Val{Kind: "double", F: rapid.SampledFrom([]float64{1e16, 1e16 + 2, 0.1, 0.1 + 1e-12}).Draw(t, "closef")}
 	case 0, 1, 2:
 		return gn.Val{Kind: "int", I: int64(rapid.IntRange(0, 2).Draw(t, "i"))}
